@@ -11,7 +11,7 @@ import json, hashlib
 from pathlib import Path
 from vlib import *
 
-TEXT_MODULES = ["UvModel.Props.C18Text"]
+TEXT_MODULES = ["UvModel.Props.C18Text", "UvModel.Props.C18Gai"]
 DOTS = [".", "。", "．", "｡"]
 EINVAL, E2BIG, ENOBUFS = -22, -7, -105
 
@@ -526,6 +526,269 @@ def gen_lines(ctx, rng, boost=1):
     return L
 
 
+# ------------------------------------------------------------------ the caller of the codec: uv_getaddrinfo
+# harness/c18_gai.c links the whole library and defines getaddrinfo()/freeaddrinfo() itself: the resolver of the C
+# library is replaced by one that records the node / service / hints it is handed and returns a canned answer.
+# Monitor (property text, Python codecs only): whatever `hints` is, a host name reaches the resolver exactly as
+# ref_toascii() of it (per-label xn-- iff non-ASCII, ideographic dots mapped), ill-formed UTF-8 is refused with
+# UV_EINVAL before any resolver call, and a name whose converted form does not fit the 256-byte destination never
+# reaches the resolver.  Correspondence: `uvdriver c18gai` (UvModel/GaiHost.lean) on the same lines.
+AI_BITS = {"PASSIVE": 0x1, "CANONNAME": 0x2, "NUMERICHOST": 0x4, "V4MAPPED": 0x8, "ALL": 0x10, "ADDRCONFIG": 0x20,
+           "IDN": 0x40, "CANONIDN": 0x80, "bit8": 0x100, "bit9": 0x200, "NUMERICSERV": 0x400, "bit11": 0x800}
+FAMILIES = [0, 2, 10, 1, 999]          # AF_UNSPEC, AF_INET, AF_INET6, AF_UNIX, unknown
+GAI_ANSWERS = [0, -2, 0, -3, -4, -10, -8]   # 0, EAI_NONAME, EAI_AGAIN, EAI_FAIL, EAI_MEMORY, EAI_SERVICE
+
+
+def hint_shapes():
+    """NULL, all-zero, every single ai_flags bit, the combinations programs use, all bits, each family / socktype /
+    protocol"""
+    out = ["null", "0,0,0,0"]
+    for b in AI_BITS.values():
+        out.append(f"{b},0,1,0")
+    out += [f"{0x8 | 0x10},10,1,0", f"{0x4 | 0x1},0,1,0", f"{0x4 | 0x400},2,2,17", f"{0x2 | 0x20},0,1,6", f"{0x1 | 0x400},10,1,6",
+            f"{0x4 | 0x8 | 0x10 | 0x20},10,0,0", f"{sum(AI_BITS.values())},0,0,0", "-1,0,0,0", f"{0x7fffffff},0,1,0"]
+    for fam in FAMILIES[1:]:
+        out.append(f"0,{fam},0,0")
+    out += ["0,0,2,17", "0,0,3,0", "0,2,1,6", "0,0,0,255"]
+    return out
+
+
+def rand_hints(rng):
+    if rng.chance(1, 8):
+        return "null"
+    f = 0
+    for b in AI_BITS.values():
+        if rng.chance(1, 4):
+            f |= b
+    if rng.chance(1, 20):
+        f = rng.choice([-1, 0x7fffffff, -2147483648, 1 << 16, 1 << 30])
+    return f"{f},{rng.choice(FAMILIES)},{rng.choice([0, 1, 2, 3, 5])},{rng.choice([0, 6, 17, 255])}"
+
+
+def gai_hosts_curated():
+    """host-name classes as byte strings (no NUL): ASCII, numeric, non-ASCII well-formed, the three ideographic full
+    stops, ill-formed / truncated / overlong-encoded / surrogate, over-long"""
+    H = []
+    H += [b"localhost", b"example.com", b"a", b"a.", b"WWW.Example.COM.", b"127.0.0.1", b"::1", b"fe80::1%lo", b"0x7f.1",
+          b"xn--bcher-kva.de", b"a..b", b".", b"-", b"*", b"a b", b"\x01\x7f"]
+    H += [s.encode("utf-8") for s in (
+        "bücher.de", "www.bücher.example.", "ü", "例え.テスト", "παράδειγμα.δοκιμή", "\U0001F600.ws", "a\u0080.b", "xn--abc.ü",
+        "127。0．0｡1", "a。b", "www．bücher｡de", "。", "a｡", "１２７.0.0.1", "::１", "192.168.0.1。")]
+    H += [s.encode("utf-8") for s in RFC3492_SAMPLES[:4]]
+    H += [s.encode("utf-8") for s in long_hostnames()]
+    H += [b"192.168.0.\xc3", b"\xc0\x80.1", b"\xc3", b"a.\xe2\x82", b"\xf0\x9f\x98.com", b"\xed\xa0\x80", b"\xff", b"a\x80b",
+          b"b\xc3\xbccher.de\xe3\x80", b"127\xe3\x80\x82" + b"0.0.\xf4\x90\x80\x80", b"\xf8\x88\x80\x80\x80.x"]
+    for b in special_byte_strings():
+        if b and 0 not in b and ref_toascii(b) is None:
+            H.append(b)
+            H.append(b"ab." + b + b".c")
+    seen, out = set(), []
+    for b in H:
+        if b not in seen:
+            seen.add(b)
+            out.append(b)
+    return out
+
+
+def gai_line(host, svc, hints, k):
+    mode = "async" if k % 3 == 2 else "sync"
+    h = "null" if host is None else hx(host)
+    sv = "null" if svc is None else hx(svc)
+    return f"gai {h} {sv} {hints} {mode} {GAI_ANSWERS[k % len(GAI_ANSWERS)]}"
+
+
+def gen_gai_lines(ctx, rng, boost=1):
+    L = []
+    shapes = hint_shapes()
+    cur = gai_hosts_curated()
+    k = 0
+    full = [b for b in cur if len(b) <= 24 or ref_toascii(b) is None][:ctx.scale(140, 100000)]
+    for b in cur:
+        hs = shapes if (b in full or not ctx.quick or boost > 1) else [shapes[0]] + [rng.choice(shapes) for _ in range(6)]
+        for h in hs:
+            L.append((gai_line(b, rng.choice([None, b"80", b"http", b""]) if k % 5 == 0 else None, h, k), "gai-curated"))
+            k += 1
+    # random host names (all four dot forms, mixed labels), each with random hints shapes; damaged copies
+    for _ in range(ctx.scale(250, 6000) * boost):
+        b = gen_hostname(rng).encode("utf-8").replace(b"\0", b"")
+        if not b:
+            continue
+        for h in [rng.choice(shapes), rand_hints(rng), rand_hints(rng)]:
+            L.append((gai_line(b, None, h, k), "gai-random"))
+            k += 1
+        if rng.chance(1, 2):
+            j = rng.below(len(b))
+            mb = (b[:j] + bytes([rng.choice([x for x in REPS_FULL if x])]) + b[j + 1:]) if rng.chance(1, 2) else b[:rng.range(1, len(b))]
+            for h in [rng.choice(shapes), rand_hints(rng)]:
+                L.append((gai_line(mb, None, h, k), "gai-mutated"))
+                k += 1
+    # argument shapes around the host step: no host (service only), neither, empty host, no request
+    for h in shapes[:6] + [rand_hints(rng) for _ in range(4)]:
+        for host, svc in ((None, b"80"), (None, None), (b"", None), (b"", b"80"), (None, b"")):
+            L.append((gai_line(host, svc, h, k), "gai-args"))
+            k += 1
+        L.append((f"gai {hx('ü.de'.encode())} null {h} noreq 0", "gai-args"))
+        L.append((f"gai {hx(bytes([0xc3]))} null {h} noreq 0", "gai-args"))
+    return L
+
+
+def gai_fields(out):
+    return dict(p.split("=", 1) for p in out.split()[1:] if "=" in p)
+
+
+def gai_hints_class(h):
+    if h == "null":
+        return "hints NULL"
+    f = int(h.split(",")[0])
+    names = [n for n, b in AI_BITS.items() if f & b]
+    return f"hints ai_flags={f:#x}" + (" (" + "|".join("AI_" + n if not n.startswith("bit") else n for n in names) + ")" if names else "") + \
+           " family/socktype/protocol=" + "/".join(h.split(",")[1:])
+
+
+def monitor_gai(line, out):
+    w = line.split()
+    if not out.startswith("gai rc="):
+        return ("text-harness-protocol", f"`{line}` answered `{out}`")
+    f = gai_fields(out)
+    rc, calls, node = int(f["rc"]), int(f["calls"]), f["node"]
+    hc = gai_hints_class(w[3])
+    if w[1] == "null" or w[4] == "noreq":
+        return None              # argument checks are not part of the property text (the correspondence covers them)
+    b = unhx(w[1])
+    if not b:
+        return None              # empty host name: the property does not say (correspondence covers it)
+    ref = ref_toascii(b)
+    seen = None if node == "null" else unhx(node)
+    if ref is None:
+        if rc == EINVAL and calls == 0:
+            return None
+        cls = first_bad_class(b)
+        sig = "getaddrinfo-truncated-utf8-not-refused" if cls == "truncated" else "getaddrinfo-illformed-utf8-not-refused"
+        return (sig, f"uv_getaddrinfo({b!r}, {hc}) returned {rc} (status {f['status']}) and handed {seen!r} to the resolver; "
+                     f"ill-formed UTF-8 ({cls}) must be refused with UV_EINVAL whatever the hints are")
+    if len(ref) + 1 > 256:
+        if calls == 0 and rc < 0:
+            return None
+        return ("getaddrinfo-overlong-host-reaches-resolver",
+                f"uv_getaddrinfo(<{len(b)} bytes, converted form {len(ref)} bytes>, {hc}) returned {rc} and handed a {len(seen or b'')}-byte "
+                f"node to the resolver; the converted name does not fit the 256-byte destination")
+    if calls == 0:
+        return ("getaddrinfo-valid-host-refused", f"uv_getaddrinfo({b!r}, {hc}) returned {rc} without calling the resolver; expected node {ref!r}")
+    if seen != ref:
+        kind = "dots-not-mapped" if seen is not None and any(d.encode() in seen for d in DOTS[1:]) else \
+               "nonascii-label-not-converted" if seen is not None and any(x >= 128 for x in seen) else "wrong-node"
+        return ("getaddrinfo-" + kind,
+                f"uv_getaddrinfo({b!r}, {hc}): the resolver was handed {seen!r}, expected {ref!r} (per-label xn-- iff non-ASCII; "
+                f"U+3002/U+FF0E/U+FF61 are label separators)")
+    if calls != 1:
+        return ("getaddrinfo-resolver-called-twice", f"uv_getaddrinfo({b!r}, {hc}): resolver called {calls} times")
+    return None
+
+
+def shrink_gai(ctx, exe, line, sig):
+    """smallest hints shape, then fewest host bytes, that still fail with the same signature"""
+    def bad(l):
+        outs, _ = run_impl(ctx, exe, [l])
+        m = monitor_gai(l, outs[0]) if outs and outs[0] != "crash" else None
+        return m is not None and m[0] == sig
+    w = line.split()
+    w[2] = "null" if w[1] != "null" else w[2]
+    if not bad(" ".join(w)):
+        w = line.split()
+    if w[3] != "null":
+        f = int(w[3].split(",")[0])
+        for cand in ["null", "0,0,0,0"] + [f"{b},0,0,0" for b in AI_BITS.values() if f & b] + [f"{f},0,0,0"]:
+            if bad(" ".join(w[:3] + [cand] + w[4:])):
+                w[3] = cand
+                break
+    b = list(unhx(w[1])) if w[1] != "null" else []
+    i = 0
+    while i < len(b) and len(b) > 1:
+        cand = b[:i] + b[i + 1:]
+        if bad(" ".join([w[0], hx(bytes(cand))] + w[2:])):
+            b = cand
+        else:
+            i += 1
+    if b:
+        w[1] = hx(bytes(b))
+    return " ".join(w)
+
+
+def check_gai(ctx, exe, tagged, with_model=True, label=""):
+    lines = [l for l, _ in tagged]
+    outs, crash = run_impl(ctx, exe, lines)
+    if crash:
+        k, detail = crash
+        ctx.violation("text-gai-memory-fault", f"C18 text: uv_getaddrinfo harness died (guard page / sanitizer / abort) on `{lines[k][:200]}`: {detail}",
+                      {"mode": "gai", "line": lines[k]})
+    mouts = ctx.driver(["c18gai"], "\n".join(lines) + "\n").splitlines() if with_model else None
+    diffs, tags, by_hints = [], {}, {}
+    for i, (line, tag) in enumerate(tagged):
+        o = outs[i] if i < len(outs) else "crash"
+        ctx.count()
+        tags[tag] = tags.get(tag, 0) + 1
+        if o == "crash":
+            continue
+        m = monitor_gai(line, o)
+        if m:
+            sig, what = m
+            line_r = line
+            if sig not in ctx.known and not any(v["sig"] == sig for v in ctx.violations):
+                sl = shrink_gai(ctx, exe, line, sig)
+                so, _ = run_impl(ctx, exe, [sl])
+                mm = monitor_gai(sl, so[0]) if so and so[0] != "crash" else None
+                if mm and mm[0] == sig:
+                    line_r, what = sl, mm[1]
+            ctx.violation(sig, "C18 text: " + what, {"mode": "gai", "line": line_r})
+            ctx.notes.setdefault("text_monitor_failures", {}).setdefault(sig, 0)
+            ctx.notes["text_monitor_failures"][sig] += 1
+        if with_model:
+            mo = mouts[i] if i < len(mouts) else None
+            if mo != o:
+                diffs.append((line, o, mo, m is not None))
+            else:
+                ctx.validated()
+        f = gai_fields(o) if o.startswith("gai rc=") else {}
+        if f.get("calls") == "1" and f.get("node") not in (None, "null") and b"xn--" in unhx(f["node"]) or f.get("rc") == str(EINVAL):
+            ctx.nontrivial(hashlib.sha1((line.split()[3] + o).encode()).hexdigest()[:12])
+        hk = "null" if line.split()[3] == "null" else "flags=%#x" % (int(line.split()[3].split(",")[0]) & 0xffffffff)
+        by_hints[hk] = by_hints.get(hk, 0) + 1
+    for t, n in tags.items():
+        ctx.notes.setdefault("text_cases_by_class" + label, {})[t] = n
+    ctx.notes["gai_distinct_ai_flags_values" + label] = len(by_hints)
+    return diffs
+
+
+def run_gai(ctx, rng):
+    exe = ctx.harness("c18_gai", ["harness/c18_gai.c"], link_lib=True)
+    if exe is None:
+        return
+    tagged = gen_gai_lines(ctx, rng)
+    diffs = check_gai(ctx, exe, tagged)
+    ctx.sample({"gai_ops": [l for l, _ in tagged[500:502]]})
+    if diffs:
+        line, o, mo, _ = diffs[0]
+        ctx.broken_correspondence("uv_getaddrinfo host-name step: model (GaiHost.lean) vs src/unix/getaddrinfo.c",
+                                  f"{len(diffs)} differing lines; first: `{line[:300]}` impl `{o[:300]}` model `{(mo or '')[:300]}`")
+    proofs_broken = any(k == "proof" for k, _, _ in ctx.broken)
+    if (diffs or proofs_broken) and not ctx.violations:
+        ctx.log("text/gai: obligation broken; searching with the monitors alone over an enlarged generation")
+        more = gen_gai_lines(ctx, SplitMix(ctx.seed + 1818), boost=20)
+        for line, _, _, _ in diffs[:50]:                       # bias: the differing hosts under every hints shape
+            w = line.split()
+            for h in hint_shapes():
+                more.append((" ".join(w[:3] + [h] + w[4:]), "search"))
+        check_gai(ctx, exe, more, with_model=False, label="_search")
+        ctx.notes["search_gai"] = f"text/gai: {len(more)} extra cases run against the monitors after an obligation broke"
+    ctx.cov["rule_gai"] = ("uv_getaddrinfo with the libc resolver interposed: host-name classes (ASCII, numeric, non-ASCII well-formed, "
+                           "ideographic full stops, ill-formed / truncated / overlong / surrogate UTF-8, names around and beyond the "
+                           "256-byte destination, random and damaged host names) crossed with hints shapes (NULL, zero, every single "
+                           "ai_flags bit 0x1..0x800, usual combinations, all bits, every family / socktype / protocol, random), sync "
+                           "(cb NULL) and thread-pool mode, 6 resolver answers; plus host NULL / empty / req NULL. Non-trivial = an "
+                           "xn-- node reached the resolver or the call was refused; distinct by hints + output line")
+
+
+
 # ------------------------------------------------------------------ running
 def run_impl(ctx, exe, lines):
     """returns (outputs, crash) ; crash = (index, stderr tail) if the harness died on a line"""
@@ -640,6 +903,11 @@ def run_text(ctx):
         return False
     if ctx.replay:
         rp = json.loads(Path(ctx.replay).read_text()).get("replay") or {}
+        if rp.get("mode") == "gai":
+            gexe = ctx.harness("c18_gai", ["harness/c18_gai.c"], link_lib=True)
+            if gexe is not None:
+                check_gai(ctx, gexe, [(rp["line"], "replay")])
+            return True
         if rp.get("mode") != "text":
             return False
         check_lines(ctx, exe, [(rp["line"], "replay")])
@@ -686,6 +954,7 @@ def run_text(ctx):
         sub.append(("w8 f48fbfbf", "assert"))
         sub.append(("w8 41f48fbfbff4808080", "assert"))
         check_lines(ctx, exa, sub, with_model=False, label="_assert_build", fault="assert-abort")
+    run_gai(ctx, rng.fork())
     ctx.cov["rule_text"] = ("utf8: all byte strings of length <= 2, all strings of length 3 (and 4; quick: 13 of the 28) over 28 "
                             "class representatives, boundary scalars, CESU surrogates, overlongs, every truncation; toascii: the "
                             "same short strings, host names built from ASCII / non-ASCII / mixed / empty / long labels with the 4 "
